@@ -3,6 +3,7 @@
 H8: operation sequences over the lifecycle alphabet against children with
 chosen dispositions; invariants evaluated from /proc after every operation
 (single-threaded, at quiescent points)."""
+import errno
 import gc
 import tempfile
 import zlib
@@ -13,6 +14,8 @@ import socket
 import time
 
 import pexpect
+import pexpect.pty_spawn
+import ptyprocess.ptyprocess
 from pexpect import EOF, TIMEOUT, ExceptionPexpect, fdpexpect, socket_pexpect
 
 from ..core.runner import split_range
@@ -30,13 +33,14 @@ RULE = ('operation sequences over {isalive, wait, kill(sig), terminate(False/Tru
         'operation: I1 liveness claims vs /proc (identity by start time), I2 dead and reaped after terminate(force=True) / '
         'close(), I3 close idempotent, child_fd == -1, closed, descriptor count back to baseline, no zombie, I4 after close '
         'every I/O operation raises and a canary pipe placed on the old descriptor number is untouched, I5 whenever '
-        'child_fd != -1 it is the descriptor opened at spawn. non-trivial = sequence with >=2 operations on a disposition '
+        'child_fd != -1 it is the descriptor opened at spawn, I6 no signal is addressed to the pid number once the child has '
+        'been reaped (os.kill as pexpect and ptyprocess see it is guarded: such a signal is noted and not delivered). non-trivial = sequence with >=2 operations on a disposition '
         'other than normal, or containing a close/terminate followed by another operation; distinct by (disposition, sequence)')
 ASSUMPTIONS = ['delayafterclose / delayafterterminate lowered to 20 ms (configuration attributes); a violation is re-run twice with the default 0.1 s and reported only if it reproduces',
                'wait() is issued only when /proc shows the child exiting or the disposition guarantees it',
                '/proc/<pid>/stat start time identifies our child (no pid-reuse confusion)']
 REQUIRED = ['sequences', 'operations', 'invariant_I1', 'invariant_I2', 'invariant_I3', 'invariant_I4', 'invariant_I5',
-            'enumerated_sequences', 'fd_sequences', 'socket_sequences']
+            'enumerated_sequences', 'fd_sequences', 'socket_sequences', 'invariant_I6_signal_ops_after_reaping']
 
 PTY_OPS = ['isalive', 'wait', 'kill0', 'killTERM', 'killCONT', 'terminate', 'terminateF', 'closeNF', 'close', 'sendeof',
            'expect_eof', 'send', 'read', 'with_exc', 'del']
@@ -59,10 +63,36 @@ class Ctx(object):
     pass
 
 
+class KillGuard(object):
+    """stands in for the os module inside pexpect.pty_spawn / ptyprocess.ptyprocess: a signal addressed to the
+    child's pid number after the child has been reaped (the number is no longer ours) is noted and answered the way
+    the kernel answers for an unused number, never delivered"""
+
+    def __init__(self, real, ctx):
+        self._real, self._ctx = real, ctx
+
+    def kill(self, pid, sig):
+        ctx = self._ctx
+        if pid == getattr(ctx, 'pid', None):
+            st = proc_stat(pid)
+            if st is None or st[2] != ctx.start:
+                ctx.stale_signals.append(sig)
+                raise ProcessLookupError(errno.ESRCH, 'No such process')
+        return self._real.kill(pid, sig)
+
+    def __getattr__(self, name):
+        return getattr(self._real, name)
+
+
 def judge_pty(ctx, op, ret, exc, acc, case):
     """Invariants after one operation on the pty transport."""
     c = ctx.child
     out = []
+    # I6: the pid number is a handle like the descriptor number: once the child has been reaped it is not used again
+    if getattr(ctx, 'stale_signals', None):
+        out.append(('signal-sent-to-reaped-pid', '%s sent signal(s) %r to pid %d after the child had been reaped' % (
+            op, ctx.stale_signals, ctx.pid)))
+        ctx.stale_signals = []
     st = proc_stat(ctx.pid)
     ours = st is not None and st[2] == ctx.start
     running = ours and st[0] not in ('Z', 'X')
@@ -90,6 +120,8 @@ def judge_pty(ctx, op, ret, exc, acc, case):
             out.append(('terminate-true-but-child-running', '%s returned True but /proc shows the child %s' % (op, st[0])))
         if ret is False and gone:
             out.append(('terminate-false-but-child-reaped', '%s returned False although pexpect itself has reaped the child' % op))
+    if gone and op in ('kill0', 'killTERM', 'killCONT', 'terminate', 'terminateF'):
+        acc.count('invariant_I6_signal_ops_after_reaping')
     if c.terminated and running:
         out.append(('running-child-reported-terminated', 'terminated=True but /proc shows state %s (after %s)' % (st[0], op)))
     # I2
@@ -254,6 +286,9 @@ def pty_sequence(case, acc):
     pup = Puppet(opts=opts)
     ctx = Ctx()
     ctx.child = None
+    ctx.stale_signals = []
+    saved_os = (pexpect.pty_spawn.os, ptyprocess.ptyprocess.os)
+    pexpect.pty_spawn.os = ptyprocess.ptyprocess.os = KillGuard(os, ctx)
     try:
         ctx.base_fds = nfds()
         ctx.child = pexpect.spawn(pup.argv[0], pup.argv[1:], timeout=5)
@@ -317,6 +352,7 @@ def pty_sequence(case, acc):
             pass
         ctx.child = None
         gc.collect()
+        pexpect.pty_spawn.os, ptyprocess.ptyprocess.os = saved_os
         try:
             st = proc_stat(getattr(ctx, 'pid', 0) or 0)
             if st is not None and st[2] == getattr(ctx, 'start', None):
